@@ -13,7 +13,7 @@
    execution without a snapshot (patch transparency); established by correspondence and by the
    sliced / look-ahead-variant oracle of tools/props/c01.py. *)
 From Ink.Engine Require Import Api Tie.
-From Ink.Shell Require Import Keeps Rewind.
+From Ink.Shell Require Import Keeps Rewind HostFrame Balance BetweenCalls PatchShape PatchInv.
 
 Theorem step_keeps_snapshot : forall (I : iface) (sw : switches) (w : world),
   w_snapshot (snd (step I sw w)) = w_snapshot w.
@@ -60,3 +60,55 @@ Print Assumptions lookahead_rewind_exact.
 (* non-vacuity: a freshly constructed state has no pending patch *)
 Example fresh_patch_free : forall seed, patch_free (sstate_new seed).
 Proof. intros seed. split; reflexivity. Qed.
+
+(* ---------------- the hypothesis of the rewind theorem holds in every reachable world ---------------- *)
+(* Inv3: a look-ahead patch exists exactly while a look-ahead snapshot exists, and every snapshot
+   is a patch-free state.  It is preserved by the single step of the continue loop (so it holds at
+   every point INSIDE a continue) ... *)
+Theorem patch_exists_exactly_while_snapshot_exists :
+  forall (I : iface) (sw : switches) (w : world),
+    Inv3 w ->
+    match continue_single_step I sw w with
+    | (OOk _, w') => Inv3 w'
+    | (OErr _ _, w') => Inv3 w'
+    | (OPanic _, _) => True
+    end.
+Proof. exact continue_single_step_inv3. Qed.
+Check patch_exists_exactly_while_snapshot_exists :
+  forall (I : iface) (sw : switches) (w : world),
+    Inv3 w ->
+    match continue_single_step I sw w with
+    | (OOk _, w') => Inv3 w'
+    | (OErr _ _, w') => Inv3 w'
+    | (OPanic _, _) => True
+    end.
+Print Assumptions patch_exists_exactly_while_snapshot_exists.
+
+(* ... and, together with the bookkeeping invariant, by every story operation: in every world
+   reachable from construction *)
+Theorem all_invariants_hold_in_every_reachable_world :
+  forall (I : iface) (ops : list story_op) (w : world),
+    InvAll w -> no_panic I sw_now ops w -> InvAll (run_story_ops I sw_now ops w).
+Proof. exact (fun I => PatchInv.all_invariants_preserved I sw_now now_cont_check_first). Qed.
+Check all_invariants_hold_in_every_reachable_world :
+  forall (I : iface) (ops : list story_op) (w : world),
+    InvAll w -> no_panic I sw_now ops w -> InvAll (run_story_ops I sw_now ops w).
+Print Assumptions all_invariants_hold_in_every_reachable_world.
+
+(* hence a snapshot is only ever taken of a patch-free state: lookahead_rewind_exact applies to
+   every snapshot the engine takes, and between host calls nothing is pending in a patch *)
+Theorem reachable_worlds_without_snapshot_are_patch_free :
+  forall (I : iface) (ops : list story_op) (st : story) (seed : Z) (fuel : N),
+    no_panic I sw_now ops (world_init st seed fuel) ->
+    w_snapshot (run_story_ops I sw_now ops (world_init st seed fuel)) = None ->
+    patch_free (w_state (run_story_ops I sw_now ops (world_init st seed fuel))).
+Proof. exact (fun I ops st seed fuel => PatchInv.reachable_patch_free I sw_now now_cont_check_first ops st seed fuel). Qed.
+Check reachable_worlds_without_snapshot_are_patch_free :
+  forall (I : iface) (ops : list story_op) (st : story) (seed : Z) (fuel : N),
+    no_panic I sw_now ops (world_init st seed fuel) ->
+    w_snapshot (run_story_ops I sw_now ops (world_init st seed fuel)) = None ->
+    patch_free (w_state (run_story_ops I sw_now ops (world_init st seed fuel))).
+Print Assumptions reachable_worlds_without_snapshot_are_patch_free.
+
+Example fresh_world_all_invariants : forall st seed fuel, InvAll (world_init st seed fuel).
+Proof. exact PatchInv.invall_world_init. Qed.
